@@ -612,7 +612,7 @@ func c05Panics(r *core.Run) {
 		}
 		c05ConstIndexRule(r, o, mapFuncs)
 	})
-	r.Check("D6/K5/memo-key-covers-value", "a value memoised in a package-level map of lib/mapping is stored under a key that depends on everything that decides how the value is computed: where a branch (other than on the lookup's own outcome) selects between differently computed values, the key depends on the operand of that branch (the parsed form of a default= text depends on the element kind as well as on the text)", func(o *core.O) {
+	r.Check("D6/K5/memo-key-covers-value", "a value memoised in a package-level map of lib/mapping is stored under a key that depends on everything that decides how the value is computed: where a branch (other than on the lookup's own outcome) selects between differently computed values, the key depends on the operand of that branch (the parsed form of a default= text depends on the element kind as well as on the text); and every parameter or captured variable the stored value is computed from (data dependence, through call arguments) is also an input of the key - for an unexported helper judged once more at its in-package call sites (whether a struct is implicitly required depends on the tag key as well as on the type: keyed by the type alone, the answer for the first unmarshaler's tag key is served to all others)", func(o *core.O) {
 		if !o.Need(len(mapFuncs) > 0, "package "+mapPkg) {
 			return
 		}
